@@ -4,7 +4,7 @@ the root set is one obligation."""
 import json, os, re
 from collections import Counter, defaultdict
 from .core import VERIF, EngineError, AnchorMissing
-from .prog import short
+from .prog import short, place_fields
 from . import sites as S
 from . import flow as F
 from . import pathrules as PR
@@ -678,7 +678,7 @@ def run_thorough_release(R, rid, root_name):
          sample={"release_tree_hash": info2.get("hash")})
 
 
-def recursion_rule(R, rid, root_name):
+def recursion_rule(R, rid, root_name, guard_roots=None):
     """every recursive cycle reachable from the roots is depth-guarded or follows a structure whose depth a guarded function bounds"""
     P = R.prog
     R.rule(rid, "stack depth: every recursive call-graph component reachable from the entry points passes through the parser's depth guard "
@@ -686,6 +686,10 @@ def recursion_rule(R, rid, root_name):
     with open(os.path.join(VERIF, "tables", "recursion.json")) as fh:
         tab = json.load(fh)["components"]
     reach = P.reachable(roots(R, root_name))
+    own_reach = set(reach)
+    if guard_roots:
+        # the `bounded_by` entries lean on the depth guard of the expression parser: its component is checked here as well
+        reach = P.reachable(roots(R, root_name) + roots(R, guard_roots))
     cg = P.callgraph()
     g = {a: set(b for b in cg.get(a, ()) if b in reach) for a in reach}
     # Tarjan (iterative)
@@ -756,6 +760,8 @@ def recursion_rule(R, rid, root_name):
         key = named[0]
         ent = [e for e in tab if e["contains"] in names]
         loc = P.fns[comp[0]].loc()
+        if not (set(comp) & own_reach) and not (ent and ent[0]["mode"] == "guarded"):
+            continue
         if not ent and all(P.fns[k].derived for k in comp):
             # #[derive(Clone / PartialEq / Hash / Debug ..)] on a tree type recurses over a value of that type; values of the tree
             # types are only built by the parser / converter, i.e. under the depth guard
@@ -788,6 +794,35 @@ def recursion_rule(R, rid, root_name):
                     unguarded_pass = [b_ for b_ in builds if hdr in g_.reachable_from(b_, avoid=guard_blocks) and
                                       b_ in g_.reachable_from(hdr, avoid=guard_blocks)]
                     keyl = "loop|" + g_.spath.split("::")[-1]
+                    # the passes must accumulate: the counter the guard increments is not written (restored) inside the loop, neither
+                    # directly nor by a helper other than the guard - otherwise every pass starts from the same depth again
+                    cfields = set()
+                    for gk in guard_callers:
+                        gfn = P.fns[gk]
+                        if gk in in_cycle or gfn.kind == "Closure":
+                            continue
+                        for _, st in gfn.stmts():
+                            if st["k"] == "assign" and st["pl"]["l"] == 1 and st["pl"]["p"]:
+                                cfields |= set(place_fields(st["pl"])[:1])
+                    resets = [i for i, st in g_.stmts() if i in body and st["k"] == "assign" and st["pl"]["l"] == 1 and st["pl"]["p"] and
+                              set(place_fields(st["pl"])[:1]) & cfields]
+                    reset_calls = []
+                    for c in g_.calls:
+                        if c.bb not in body:
+                            continue
+                        for k2 in P.callee_keys(g_, c):
+                            if k2 in guard_callers or k2 in comp:
+                                continue
+                            if any(st["k"] == "assign" and st["pl"]["l"] == 1 and st["pl"]["p"] and set(place_fields(st["pl"])[:1]) & cfields
+                                   for _, st in P.fns[k2].stmts()):
+                                reset_calls.append(c)
+                    if (resets or reset_calls) and not self_guard:
+                        R.violation(rid, "reset-in-" + keyl,
+                                    "%s writes the depth counter (%s) inside the loop that nests the tree one level deeper per pass: the passes no "
+                                    "longer accumulate towards the limit, so a long flat chain (`a OR a OR a ...`) yields a tree deeper than any "
+                                    "bound and the recursive passes over it (conversion, evaluation, drop) overflow the stack"
+                                    % (g_.path, ", ".join(sorted(cfields))), [g_.loc(resets[0]) if resets else reset_calls[0].loc()])
+                        continue
                     if unguarded_pass and not self_guard:
                         R.violation(rid, "unguarded-" + keyl,
                                     "%s grows the expression tree by one level per loop pass without passing the depth guard: a long flat "
